@@ -9,6 +9,9 @@
 (*   attribute value with carriage-return / line-feed / tab references,    *)
 (*   "e" text with a non-ASCII character (the harness stores every second  *)
 (*   document holding one in ISO-8859-1, declared in the XML declaration)  *)
+(* DOCTYPE forms: none, plain, SYSTEM, PUBLIC, and "subset": an internal   *)
+(* subset declaring a default attribute for the "o" elements (the parser   *)
+(* reports it on every such element, so it must still be seen afterwards). *)
 (* The edit of the attribute transformer: every SELECTED target element    *)
 (* gets the mapped attributes (a := "X", c := "N"), nothing else changes.  *)
 (* The edit of the new-element transformer: every target element gets one  *)
@@ -35,7 +38,7 @@ Docs ==
   IN flat \cup deep
 
 Scenarios == {[items |-> x, kind |-> kd, doctype |-> dt, sel |-> s] :
-                x \in Docs, kd \in {"attr", "newel"}, dt \in {"none", "plain", "system", "public"}, s \in {"all", "first", "none", "empty"}}      \* "empty": the detector ran and found nothing (an empty result list)
+                x \in Docs, kd \in {"attr", "newel"}, dt \in {"none", "plain", "system", "public", "subset"}, s \in {"all", "first", "none", "empty"}}      \* "empty": the detector ran and found nothing (an empty result list)
 
 \* targets in document order as paths <<i>> or <<i, j>>
 Targets(items) ==
